@@ -82,6 +82,39 @@ pub fn fill_cells(rng: &mut Rng, ws: &mut umya_spreadsheet::Worksheet, ncells: u
             }
         }
     }
+    // the other public ways of putting a cell on a sheet, aimed at rows nothing has touched yet
+    if ncells > 0 && rng.chance(1, 3) {
+        for _ in 0..rng.range(1, 4) {
+            *uid += 1;
+            let (c, r) = (rng.range(1, 12), 300 + rng.range(0, 400));
+            match rng.below(3) {
+                0 => {
+                    let mut cell = umya_spreadsheet::Cell::default();
+                    cell.get_coordinate_mut().set_col_num(c).set_row_num(r);
+                    cell.set_value_string(format!("set_cell-{}", uid));
+                    ws.set_cell(cell);
+                    o.count("placed.set_cell", 1);
+                }
+                k => {
+                    // copy or move an existing cell there
+                    let src: Vec<(u32, u32)> = ws.get_cell_collection_sorted().iter().map(|x| (*x.get_coordinate().get_col_num(), *x.get_coordinate().get_row_num())).filter(|p| p.1 < 200_000 && p.0 < 16_000).collect();
+                    if !src.is_empty() {
+                        let (sc, sr) = *rng.pick(&src);
+                        let a1 = umya_spreadsheet::helper::coordinate::coordinate_from_index(&sc, &sr);
+                        let rg = format!("{}:{}", a1, a1);
+                        let dr = (r as i32 + 1000) - sr as i32;
+                        if k == 1 {
+                            ws.copy_range(&rg, &dr, &0);
+                            o.count("placed.copy_range", 1);
+                        } else {
+                            ws.move_range(&rg, &dr, &0);
+                            o.count("placed.move_range", 1);
+                        }
+                    }
+                }
+            }
+        }
+    }
 }
 
 pub fn build(rng: &mut Rng, o: &mut Outcome) -> umya_spreadsheet::Spreadsheet {
